@@ -86,9 +86,15 @@ where
     type Error = L::Error;
 
     fn parse(&mut self, input: &mut I) -> Result<Self::Output, Self::Error> {
+        let original_position = input.get_position();
         match self.left.parse(input) {
             Ok(x) => Ok(x),
-            Err(err) if err.is_soft() => self.right.parse(input),
+            Err(err) if err.is_soft() => {
+                // the second alternative starts where the first one started,
+                // also when the first one does not undo its own soft failure
+                input.set_position(original_position);
+                self.right.parse(input)
+            }
             Err(err) => Err(err),
         }
     }
